@@ -1,5 +1,5 @@
-(* C11 -- IPv4/IPv6 objects agree with the standard library.  Numeric layer: the derived integer values of IPv4Obj / IPv6Obj (network = addr AND netmask, netmask/hostmask complement, broadcast/last = network + hostmask, bounds, numhosts); gen_* are regenerated from /repo on every run.  Textual layer, IPv4: v4_parse (Model/IPText.v) mirrors the constructor's regex alternatives and ipaddress's validation; every accepted spelling (render4 f a p with any surrounding blanks) parses to (a, p), and whatever parses is in range.  Textual layer, IPv6: v6_parse (Model/IPText6.v) transcribes ipaddress's IPv6 parser and IPv6Obj's input handling; whatever parses is in range (v6_parse_sound), and every uncompressed eight-group text in any hextet spelling (lower/upper case minimal, zero padded: spellings), with or without /len and surrounding blanks, parses to (value_of groups, len) (v6_parse_full).  Compressed '::' and embedded-IPv4 forms are decided by the v6text correspondence stream and the differential tie against Python's ipaddress (design/C11.md). *)
-From Coq Require Import ZArith List NArith. Require Import CCP.Lib.Res CCP.Lib.PyStr CCP.Model.IPRef CCP.Model.IPText CCP.Model.IPText6 CCP.gen.GenIP CCP.Proofs.C11Proofs CCP.Proofs.IPTextProofs CCP.Proofs.IPText6Proofs. Import ListNotations. Open Scope Z_scope.
+(* C11 -- IPv4/IPv6 objects agree with the standard library.  Numeric layer: the derived integer values of IPv4Obj / IPv6Obj (network = addr AND netmask, netmask/hostmask complement, broadcast/last = network + hostmask, bounds, numhosts); gen_* are regenerated from /repo on every run.  Textual layer, IPv4: v4_parse (Model/IPText.v) mirrors the constructor's regex alternatives and ipaddress's validation; every accepted spelling (render4 f a p with any surrounding blanks) parses to (a, p), and whatever parses is in range.  Textual layer, IPv6: v6_parse (Model/IPText6.v) transcribes ipaddress's IPv6 parser and IPv6Obj's input handling; whatever parses is in range (v6_parse_sound), and every uncompressed eight-group text in any hextet spelling (lower/upper case minimal, zero padded: spellings), with or without /len and surrounding blanks, parses to (value_of groups, len) (v6_parse_full); every compressed text hi::lo, either side possibly empty, at most seven groups (v6_parse_compressed) denotes hi ++ zeros ++ lo; a dotted-quad tail after six groups or after hi::lo with at most five groups (v6_parse_embedded_full / _compressed) contributes the low 32 bits (value_of_embedded).  These four shapes are all the spellings ipaddress accepts (scope ids are refused by IPv6Obj); rejection of everything else and the string renderings are decided by the v6text correspondence stream and the differential tie against Python's ipaddress (design/C11.md). *)
+From Coq Require Import ZArith List NArith. Require Import CCP.Lib.Res CCP.Lib.PyStr CCP.Model.IPRef CCP.Model.IPText CCP.Model.IPText6 CCP.gen.GenIP CCP.Proofs.C11Proofs CCP.Proofs.IPTextProofs CCP.Proofs.IPText6Proofs CCP.Proofs.IPText6Compressed CCP.Proofs.IPText6Embedded. Import ListNotations. Open Scope Z_scope.
 
 Theorem C11_v6_network_is_and :
   forall o, wf 128 o -> netw 128 o = Z.land (addr o) (netmask 128 o).
@@ -100,3 +100,28 @@ Theorem C11_spellings :
   spelling (sp_min false) /\ spelling (sp_min true) /\ spelling sp_pad.
 Proof. exact spellings. Qed.
 Print Assumptions C11_spellings.
+
+Theorem C11_v6_addr_compressed :
+  forall sp hi lo, spelling sp -> Forall lt16 hi -> Forall lt16 lo -> (length hi + length lo <= 7)%nat -> v6_addr (ctext sp hi lo) = Some (value_of (hi ++ repeat 0%N (8 - (length hi + length lo))%nat ++ lo)).
+Proof. exact v6_addr_compressed. Qed.
+Print Assumptions C11_v6_addr_compressed.
+
+Theorem C11_v6_parse_compressed :
+  forall sp hi lo p (with_len : bool) pre post, spelling sp -> Forall lt16 hi -> Forall lt16 lo -> (length hi + length lo <= 7)%nat -> (0 <= p <= 128)%Z -> forallb is_space pre = true -> forallb is_space post = true -> v6_parse (pre ++ (ctext sp hi lo ++ (if with_len then [c_slash] ++ render_dec (Z.to_N p) else [])) ++ post) = Some (value_of (hi ++ repeat 0%N (8 - (length hi + length lo))%nat ++ lo), if with_len then p else 128%Z).
+Proof. exact v6_parse_compressed. Qed.
+Print Assumptions C11_v6_parse_compressed.
+
+Theorem C11_value_of_embedded :
+  forall gs a, (0 <= a < 2 ^ 32)%Z -> (value_of (gs ++ [hi16 a; lo16 a]) = value_of gs * 2 ^ 32 + a)%Z.
+Proof. exact value_of_embedded. Qed.
+Print Assumptions C11_value_of_embedded.
+
+Theorem C11_v6_parse_embedded_full :
+  forall sp gs a p (with_len : bool) pre post, spelling sp -> Forall lt16 gs -> (length gs = 6)%nat -> (0 <= a < 2 ^ 32)%Z -> (0 <= p <= 128)%Z -> forallb is_space pre = true -> forallb is_space post = true -> v6_parse (pre ++ (ftext4 sp gs a ++ (if with_len then [c_slash] ++ render_dec (Z.to_N p) else [])) ++ post) = Some ((value_of gs * 2 ^ 32 + a)%Z, if with_len then p else 128%Z).
+Proof. exact v6_parse_embedded_full. Qed.
+Print Assumptions C11_v6_parse_embedded_full.
+
+Theorem C11_v6_parse_embedded_compressed :
+  forall sp hi lo a p (with_len : bool) pre post, spelling sp -> Forall lt16 hi -> Forall lt16 lo -> (length hi + length lo <= 5)%nat -> (0 <= a < 2 ^ 32)%Z -> (0 <= p <= 128)%Z -> forallb is_space pre = true -> forallb is_space post = true -> v6_parse (pre ++ (etext sp hi lo a ++ (if with_len then [c_slash] ++ render_dec (Z.to_N p) else [])) ++ post) = Some ((value_of (hi ++ repeat 0%N (6 - (length hi + length lo))%nat ++ lo) * 2 ^ 32 + a)%Z, if with_len then p else 128%Z).
+Proof. exact v6_parse_embedded_compressed. Qed.
+Print Assumptions C11_v6_parse_embedded_compressed.
